@@ -432,6 +432,12 @@ def r13_3(model: Model, rep: Report) -> None:
         if not guarded:
             problems.append("a probability is marginalised on a path that does not establish that it has no conditioning variables "
                             "(Σ over the children of a CONDITIONAL probability is 1 only if no summed variable occurs among the conditions)")
+        # ... and the remaining children must not be SUBSCRIPTED by a summed variable: Σ_b P(b, c_b) is not P(c_b) -- the subscript would be left
+        # behind as a free variable.  A path that never looks at the children's interventions together with the ranges cannot exclude that.
+        looks = any(any(s_[0] == "attr" and s_[2] == "interventions" for s_ in subterms(c)) and any(s_ == R for s_ in subterms(c)) for c in p.conds)
+        if not looks:
+            problems.append("a summed variable is removed from the joint on a path that never compares the ranges with the children's intervention subscripts: "
+                            "Sum[B](P(B, C @ B)) becomes P(C @ B), in which the summed B is left behind as a free subscript (variable capture)")
         for c in p.conds:
             neg = c[0] == "not"
             cc = c[1] if neg else c
